@@ -15,6 +15,7 @@ import QiVerif.Driver.C13
 import QiVerif.Driver.C14
 import QiVerif.Driver.C15
 import QiVerif.Driver.C12
+import QiVerif.Driver.C18
 open QiVerif.Driver
 
 /-- parameters handed over by ./check from the regenerated constants -/
@@ -55,6 +56,7 @@ def dispatch (p : Params) (st : DState) (line : String) : DState × String :=
       let (s', out) := C04.run st.sv ws
       ({ st with sv := s' }, out)
     else if op.startsWith "c12." then (st, C12.run ws)
+    else if op.startsWith "idl." then (st, C18.run ws)
     else if op.startsWith "sd." then
       let (s', out) := C15.run st.sd ws
       ({ st with sd := s' }, out)
